@@ -492,6 +492,9 @@ class Caser:
             node = ast.parse(src).body[0]
         except SyntaxError:
             return {**base, "body": {"k": "raw", "hex": src.encode().hex()}}
+        if not isinstance(node, (ast.FunctionDef, ast.AsyncFunctionDef)):
+            # a lambda: the enclosing statement does not identify the function -> code object (fix 0b7c1de8, D67)
+            return {**base, "body": {"k": "code"}, "code": [self.case(x) for x in code_items(f.__code__)]}
         chunks = []
         if hasattr(node, "args"):
             for a in node.args.args + node.args.kwonlyargs:
@@ -680,8 +683,9 @@ def canon(s, env=None, stack=()):
         is_exec = s.get("mode", "module") == "exec"
         return ["func", bool(s.get("lambda")), list(s["params"]), list(s["body"]), is_exec, s.get("name", "f") if is_exec else None]
     if k == "def":
-        env[s["name"]] = s["v"]
-        return canon(s["v"], env, stack)
+        c = canon(s["v"], env, stack)
+        env[s["name"]] = s["v"]  # bound after the value is built (an inner definition of the same name is shadowed again)
+        return c
     if k == "use":
         if s["name"] in stack:
             return ["backref", len(stack) - stack.index(s["name"])]
@@ -734,24 +738,19 @@ _ORDERABLE = {"int": "num", "bool": "num", "float": "num", "str": "str", "bytes"
 
 
 def unordered_elements(s) -> str | None:
-    """D68 match rule: some dict whose keys Python's `<` does not compare ('typeerror': keys of mutually unorderable
-    classes, e.g. int next to str -> sorted(mapping) raises TypeError).  Sets and frozensets are ordered by the digests of
-    their elements since fix 847ae56e (D6) and never matter here."""
-    for n in walk(s):
-        if n["k"] != "dict":
-            continue
-        els = [kv[0] for kv in n["items"]]
-        distinct = {canon_key(e): e for e in els}
-        if len(distinct) < 2:
-            continue
-        kinds = {_ORDERABLE.get(e["k"], e["k"]) for e in distinct.values()}
-        if len(kinds) > 1 or not kinds <= {"num", "str", "bytes", "tuple"}:
-            return "typeerror"
-        if kinds == {"tuple"}:
-            firsts = {_ORDERABLE.get(e["xs"][0]["k"], e["xs"][0]["k"]) if e["xs"] else "empty" for e in distinct.values()}
-            if len(firsts) > 1 or not firsts <= {"num", "str", "bytes"}:
-                return "typeerror"
+    """(Formerly the D6 / D68 match rule.)  Sets are ordered by the digests of their elements (fix 847ae56e) and mapping keys
+    by their byte representations (fix e8ebe74c): nothing in a value is compared with Python's `<` any more."""
     return None
+
+
+def mixed_key_dicts(s) -> bool:
+    """does the value contain a dict with keys of mutually unorderable classes (the former D68 region)?"""
+    for n in walk(s):
+        if n["k"] == "dict":
+            kinds = {_ORDERABLE.get(kv[0]["k"], kv[0]["k"]) for kv in n["items"]}
+            if len(kinds) > 1:
+                return True
+    return False
 
 
 # --------------------------------------------------------------------------------------------------------------
@@ -891,7 +890,9 @@ def gen_value(rng, depth: int, names: list | None = None, allow=None):
             xs = [gen_key(rng, kk) for _ in range(w)]
         return {"k": kind, "xs": xs}
     if kind == "dict":
-        kk = rng.choice(["str", "str", "int", "bytes"])
+        kk = rng.choice(["str", "str", "int", "bytes", "mixed"])
+        if kk == "mixed":  # keys that Python's < cannot compare: ordered by representation since fix e8ebe74c
+            return {"k": "dict", "items": [[gen_key(rng), gen_value(rng, depth - 1, names)] for _ in range(w)]}
         return {"k": "dict", "items": [[gen_key(rng, kk), gen_value(rng, depth - 1, names)] for _ in range(w)]}
     if kind == "obj":
         cls = rng.choice(sorted(OBJ_CLASSES))
@@ -900,7 +901,7 @@ def gen_value(rng, depth: int, names: list | None = None, allow=None):
             kw["note"] = gen_scalar(rng)
         return {"k": "obj", "cls": cls, "kw": kw}
     # a shared sub-object: defined once, used again later in the enclosing structure
-    name = f"s{len(names)}"
+    name = f"s{len(names)}_{rng.randrange(10**9)}"  # unique also when definitions nest
     inner = {"k": rng.choice(["list", "tuple", "dict"]), "xs": [gen_value(rng, depth - 2, names) for _ in range(rng.randint(0, 3))]}
     if inner["k"] == "dict":
         inner = {"k": "dict", "items": [[_s(f"k{j}"), x] for j, x in enumerate(inner["xs"])]}
